@@ -814,6 +814,25 @@ class Resolver:
                 for ci in self.prog.classes.values():
                     if fn.attr in ci.methods:
                         cands.append(ci.methods[fn.attr])
+                # a candidate whose signature cannot take this call's arguments is not a target (the call would raise)
+                if isinstance(n, ast.Call) and not any(isinstance(a, ast.Starred) for a in n.args) and not any(k.arg is None for k in n.keywords):
+                    def accepts(m):
+                        a = m.node.args
+                        decos = {norm(d) for d in m.node.decorator_list}
+                        pos = [x.arg for x in a.posonlyargs + a.args]
+                        if "staticmethod" not in decos and pos:
+                            pos = pos[1:]
+                        if len(n.args) > len(pos) and a.vararg is None:
+                            return False
+                        names = set(pos) | {x.arg for x in a.kwonlyargs}
+                        if any(k.arg not in names for k in n.keywords) and a.kwarg is None:
+                            return False
+                        required = pos[: len(pos) - len(a.defaults)] if a.defaults else pos
+                        given = set(pos[: len(n.args)]) | {k.arg for k in n.keywords}
+                        return all(r in given for r in required)
+                    narrowed = [m for m in cands if accepts(m)]
+                    if narrowed:
+                        cands = narrowed
                 if cands:
                     cs.targets = cands
                     cs.cha = True
